@@ -177,9 +177,16 @@ pub fn run_crash(line: &str) -> String {
     for &p in &points {
         let mut variants: Vec<Option<usize>> = vec![None];
         if torn && p > 0 {
-            if let FsOp::Write { data, .. } = &oplog[p - 1] {
+            if let FsOp::Write { data, path } = &oplog[p - 1] {
                 let l = data.len();
-                for t in [1usize, l / 2, l.saturating_sub(1)] {
+                // a write that crosses a 32 KiB block boundary of the file (a log record emitted
+                // as several fragments in one write) is also cut exactly at that boundary
+                let mut cuts = vec![1usize, l / 2, l.saturating_sub(1)];
+                if l > 4096 {
+                    let before = SimFs::from_ops(&oplog[..p - 1], None).read_whole(path).map(|d| d.len()).unwrap_or(0);
+                    cuts.push(32768 - before % 32768);
+                }
+                for t in cuts {
                     if t > 0 && t < l && !variants.contains(&Some(t)) {
                         variants.push(Some(t));
                     }
@@ -322,9 +329,16 @@ pub fn run_recover(line: &str) -> String {
     for &p in &points {
         let mut variants: Vec<Option<usize>> = vec![None];
         if torn && p > 0 {
-            if let FsOp::Write { data, .. } = &oplog[p - 1] {
+            if let FsOp::Write { data, path } = &oplog[p - 1] {
                 let l = data.len();
-                for t in [1usize, l / 2, l.saturating_sub(1)] {
+                // a write that crosses a 32 KiB block boundary of the file (a log record emitted
+                // as several fragments in one write) is also cut exactly at that boundary
+                let mut cuts = vec![1usize, l / 2, l.saturating_sub(1)];
+                if l > 4096 {
+                    let before = SimFs::from_ops(&oplog[..p - 1], None).read_whole(path).map(|d| d.len()).unwrap_or(0);
+                    cuts.push(32768 - before % 32768);
+                }
+                for t in cuts {
                     if t > 0 && t < l && !variants.contains(&Some(t)) {
                         variants.push(Some(t));
                     }
@@ -398,6 +412,7 @@ pub fn run_recover_corrupt(line: &str) -> String {
             }
         }
         let original = sim.read_whole(&path).unwrap();
+        let mut muts: Vec<(usize, u8)> = vec![];
         for (i, off) in offsets.iter().enumerate() {
             lcg = (lcg * 1103515245 + 12345) & 0x7fff_ffff;
             let old = original[*off];
@@ -407,6 +422,32 @@ pub fn run_recover_corrupt(line: &str) -> String {
                 2 => 0xff,
                 _ => ((lcg >> 16) & 255) as u8,
             };
+            muts.push((*off, newb));
+        }
+        // directed: the type byte of every fragment of a log file set to every other valid type
+        // (at most 48 fragments per file, the last ones first)
+        if name.contains("wal-") || name.contains("MANIFEST") {
+            let mut hs: Vec<usize> = vec![];
+            let mut pos = 0usize;
+            while pos + 7 <= original.len() {
+                let in_block = pos % 32768;
+                if 32768 - in_block < 7 {
+                    pos += 32768 - in_block;
+                    continue;
+                }
+                let flen = u16::from_le_bytes([original[pos + 4], original[pos + 5]]) as usize;
+                hs.push(pos);
+                pos += 7 + flen;
+            }
+            for h in hs.iter().rev().take(48) {
+                for t in 0..4u8 {
+                    muts.push((*h + 6, t));
+                }
+            }
+        }
+        for (off, newb) in muts.iter() {
+            let newb = *newb;
+            let old = original[*off];
             if newb == old {
                 continue;
             }
